@@ -28,13 +28,6 @@ macro_rules
 
 /-! ## TX power: PA select, OutputPower, PaDac, OCP, PaRamp -/
 
-/- from `hk : max lo (min hi p) = k` (the translation of `p.clamp(lo, hi)`): the same value written
-`p.max(lo).min(hi)` / `p.min(hi).max(lo)`, so that a clamp spelled differently is evaluated as well -/
-set_option hygiene false in
-macro "clamp_forms" hk:ident lo:term:max hi:term:max p:term:max : tactic => `(tactic| (
-  have hk2 : min (max $p $lo) $hi = max $lo (min $hi $p) := by omega
-  have hk3 : max (min $p $hi) $lo = max $lo (min $hi $p) := by omega
-  rw [$hk:ident] at hk2 hk3))
 
 /-- `Sx1276::set_tx_power` (translated from the current source, with `write_register` / `set_ocp`) IS the
 model's `setTxPower` on an SX1276: RegPaDac (0x84 / 0x87), RegOcp (100 mA / 240 mA), RegPaConfig
